@@ -245,11 +245,15 @@ CLAIMED = {
         "number of voices whose bars share one rhythm - same places and values entry by entry - and fill their meter exactly "
         "in the scheduler's own double arithmetic, the trace of play_Bars is, step by step, every voice's entry started in "
         "voice order, ONE sleep of the common value, those entries stopped; via startDue_all, settle_all, bump_all, "
-        "loop_equal_rhythm; kernel example with two voices in 3/4). parallel_counterexample: halves against "
+        "loop_equal_rhythm; kernel example with two voices in 3/4); playTracks_equal_rhythm / playComposition_equal_rhythm "
+        "(C18Tracks.lean: ANY number of tracks and bars - when at every bar index the simultaneous bars are inside that domain, "
+        "the whole trace is one instrument announcement per track, then group after group the column traces, observers "
+        "included, the tempo returned; kernel example with two tracks of two bars through play_Composition). "
+        "parallel_counterexample: halves against "
         "quarters re-trigger (kernel) = known finding C18-parallel-scheduler. Tie A: every statement of Sequencer, "
         "SequencerObserver.notify, GM names.",
-   note=TRUST + "Partial: the equal-rhythm theorem is for play_Bars (one group of simultaneous bars); its lift through "
-        "play_Tracks' bar-index loop is by the correspondence and the oracle; sleeps are IEEE doubles 60/bpm*4/value, compared with 240/(bpm*value) by the oracle to 1e-9. Known "
+   note=TRUST + "Partial: the equal-rhythm theorems exclude tempo-changing containers inside parallel playback (those are "
+        "compared with the model and judged by the oracle's timeline); sleeps are IEEE doubles 60/bpm*4/value, compared with 240/(bpm*value) by the oracle to 1e-9. Known "
         "finding C18-parallel-scheduler (matcher: a parallel call outside the equal-rhythm/exact-fill domain); one defect "
         "repaired by a fix: commit (306af39).",
    design="§4 C18"),
